@@ -309,33 +309,37 @@ func (af *AccFlush) rep(v ssa.Value, st afState, depth int) afRep {
 		}
 	case *ssa.Extract:
 		call, ok := x.Tuple.(*ssa.Call)
-		if !ok || x.Index != 0 || !call.Call.IsInvoke() || call.Call.Method.Name() != "Marshal" || len(call.Call.Args) != 1 {
+		if !ok || x.Index != 0 {
 			break
 		}
-		mi, ok := call.Call.Args[0].(*ssa.MakeInterface)
-		if !ok {
-			break
-		}
-		al, ok := mi.X.(*ssa.Alloc)
-		if !ok || al.Referrers() == nil {
-			break
-		}
-		var data ssa.Value
-		n := 0
-		for _, r := range *al.Referrers() {
-			fa, ok := r.(*ssa.FieldAddr)
-			if !ok || fa.Referrers() == nil {
-				continue
+		data := marshalledList(call)
+		if data == nil {
+			// a helper of the package that only marshals the list it is handed: `return m.Marshal(&T{Data: p})`
+			h := call.Call.StaticCallee()
+			if h == nil || h.Blocks == nil || call.Parent() == nil || h.Pkg != call.Parent().Pkg {
+				break
 			}
-			for _, rr := range *fa.Referrers() {
-				if s, ok := rr.(*ssa.Store); ok && s.Addr == ssa.Value(fa) {
-					data = s.Val
-					n++
+			rets := Returns(h)
+			if len(rets) != 1 || len(rets[0].Results) == 0 {
+				break
+			}
+			ex, ok := RetOperand(rets[0], 0).(*ssa.Extract)
+			if !ok || ex.Index != 0 {
+				break
+			}
+			inner, ok := ex.Tuple.(*ssa.Call)
+			if !ok {
+				break
+			}
+			pv := marshalledList(inner)
+			for i, p := range h.Params {
+				if pv != nil && ssa.Value(p) == pv && i < len(call.Call.Args) {
+					data = call.Call.Args[i]
 				}
 			}
-		}
-		if n != 1 {
-			break
+			if data == nil {
+				break
+			}
 		}
 		c := af.content(data, st, depth+1)
 		if c.top {
@@ -344,6 +348,39 @@ func (af *AccFlush) rep(v ssa.Value, st afState, depth int) afRep {
 		return afRep{kind: afRepContent, c: c}
 	}
 	return afRep{kind: afRepTop}
+}
+
+// marshalledList: for `m.Marshal(&T{F: list})` (one field stored into a fresh record) the list.
+func marshalledList(call *ssa.Call) ssa.Value {
+	if !call.Call.IsInvoke() || call.Call.Method.Name() != "Marshal" || len(call.Call.Args) != 1 {
+		return nil
+	}
+	mi, ok := call.Call.Args[0].(*ssa.MakeInterface)
+	if !ok {
+		return nil
+	}
+	al, ok := mi.X.(*ssa.Alloc)
+	if !ok || al.Referrers() == nil {
+		return nil
+	}
+	var data ssa.Value
+	n := 0
+	for _, r := range *al.Referrers() {
+		fa, ok := r.(*ssa.FieldAddr)
+		if !ok || fa.Referrers() == nil {
+			continue
+		}
+		for _, rr := range *fa.Referrers() {
+			if s, ok := rr.(*ssa.Store); ok && s.Addr == ssa.Value(fa) {
+				data = s.Val
+				n++
+			}
+		}
+	}
+	if n != 1 {
+		return nil
+	}
+	return data
 }
 
 // outEm returns what was appended to the output list since the loop head, in order.
